@@ -321,6 +321,11 @@ class HistoryRunner:
                 if got != want:
                     bad.append({"path": p, "got": _short(got), "want": _short(want)})
             if bad:
+                users = [b for b in bad if m.fs.get(b["path"]) is not None and m.fs[b["path"]].owner == "user"]
+                if users and len(users) == len(bad):
+                    # every wrong path is a file redo did not produce (or that was edited by hand since): it was
+                    # overwritten or removed -- that is C11's subject, not staleness
+                    self.violate("C11", "user-file-changed", dict(ctx, bad=bad), {"symptom": "user-file-changed"})
                 self.violate("C01", "stale-content", dict(ctx, bad=bad),
                              {"symptom": "stale", "oob": m.oob_used})
             if self.pending_changes:
